@@ -80,9 +80,24 @@ def heightSpec {F C : Type} (E : Env F C) (lat lon : F) : F :=
   | none => E.nan
   | some (ix, iy, fx, fy) => E.interp fx fy (E.prep iy (gather E.stencil (rawSpec E.H E.pix) ix iy))
 
-/-- filling the cache reads the file with the same wrap/reflection (`CacheArea`'s loops) -/
+/-- what the area cache must contain: the file's pixel at the wrapped / reflected position (specification of `fillCode`) -/
 def fill {F C : Type} (E : Env F C) (xoff yoff : Int) : Int → Int → Nat :=
   fun j k => rawSpec E.H E.pix (let c := xoff + k; if c ≥ E.H.w then c - E.H.w else c) (yoff + j)
+
+/-- the two sequential reads per cache row of `CacheArea` **as coded**: the row `iy = yoff + j` (reflected and shifted by
+    half a turn beyond a pole: `iy1`, `iw1`), `xs1 = min(w − iw1, xsize)` pixels from column `iw1`, the remaining
+    `xsize − xs1` from column 0 of the same row.  `fillIdx` is the (column, row) of the file pixel that ends up in
+    `_data[j][k]`.  `Props.C20.fillCode_eq_fill` shows that this is `fill`. -/
+def fillIdx (H : Hdr) (xoff yoff xsize j k : Int) : Int × Int :=
+  let iy := yoff + j
+  let beyond := iy < 0 ∨ iy ≥ H.h
+  let iy1 := if beyond then (if iy < 0 then -iy else 2 * (H.h - 1) - iy) else iy
+  let iw1 := if beyond then (if xoff + H.w / 2 ≥ H.w then xoff + H.w / 2 - H.w else xoff + H.w / 2) else xoff
+  let xs1 := min (H.w - iw1) xsize
+  (if k < xs1 then iw1 + k else k - xs1, iy1)
+
+def fillCode {F C : Type} (E : Env F C) (xoff yoff xsize : Int) : Int → Int → Nat :=
+  fun j k => E.pix (fillIdx E.H xoff yoff xsize j k).1 (fillIdx E.H xoff yoff xsize j k).2
 
 def step {F C : Type} (E : Env F C) (s : St C) : Op F → St C × Option F
   | .height lat lon =>
@@ -94,7 +109,7 @@ def step {F C : Type} (E : Env F C) (s : St C) : Op F → St C × Option F
       (if s.threadsafe then s else { s with cix := ix, ciy := iy, cc := c }, some r)
   | .cacheSet xo yo xs ys =>
     if s.threadsafe then (s, none) else
-    ({ s with cache := true, xoff := xo, yoff := yo, xsize := xs, ysize := ys, data := fill E xo yo }, none)
+    ({ s with cache := true, xoff := xo, yoff := yo, xsize := xs, ysize := ys, data := fillCode E xo yo xs }, none)
   | .cacheClear => (if s.threadsafe then s else { s with cache := false }, none)
 
 /-- run a history, collecting the heights -/
@@ -179,31 +194,69 @@ inductive Window where
   | invalid                       -- limits not finite / latitude out of range: `GeographicErr`
   | set (xoff yoff xsize ysize : Int)
 
+/-- the integer part of `CacheArea`: from the four floors `⌊west·rlonres⌋`, `⌊east·rlonres⌋`, `⌊−north·rlatres⌋`,
+    `⌊−south·rlatres⌋` to `(xoffset, yoffset, xsize, ysize)` -/
+def windowOfIdx (w h : Int) (cubic : Bool) (iw ie in0 is0 : Int) : Int × Int × Int × Int :=
+  let inn := max 0 (min (h - 2) (in0 + (h - 1) / 2))
+  let is := max 0 (min (h - 2) (is0 + (h - 1) / 2)) + 1
+  let ie := ie + 1
+  let inn := if cubic then inn - 1 else inn
+  let is := if cubic then is + 1 else is
+  let iw := if cubic then iw - 1 else iw
+  let ie := if cubic then ie + 1 else ie
+  let sh := if iw < 0 then w else if iw ≥ w then -w else 0
+  let xo := if ie - iw ≥ w - 1 then 0 else iw + sh
+  let xe := if ie - iw ≥ w - 1 then w - 1 else ie + sh
+  (xo, inn, xe - xo + 1, is - inn + 1)
+
+/-- `east` after `if (east <= west) east += 360` -/
+def eastOf (west east : F64) : F64 := if F64.le east west then east + F64.ofInt Gen.MathC.td else east
+
 def cacheWindow (f : File) (cubic : Bool) (south west north east : F64) : Window :=
   if F64.gt south north then .clear else
   let south := MathF.latFix south
   let north := MathF.latFix north
   let west := MathF.angNormalize west
-  let east := MathF.angNormalize east
-  let east := if F64.le east west then east + F64.ofInt Gen.MathC.td else east
+  let east := eastOf west (MathF.angNormalize east)
   if !(south.isFinite && north.isFinite && west.isFinite && east.isFinite) then .invalid else
   let rlonres := F64.ofInt f.w / F64.ofInt Gen.MathC.td
   let rlatres := F64.ofInt (f.h - 1) / F64.ofInt Gen.MathC.hd
-  let iw := fl (west * rlonres)
-  let ie := fl (east * rlonres)
-  let inn := fl (F64.neg north * rlatres) + (f.h - 1) / 2
-  let is := fl (F64.neg south * rlatres) + (f.h - 1) / 2
-  let inn := max 0 (min (f.h - 2) inn)
-  let is := max 0 (min (f.h - 2) is)
-  let is := is + 1
-  let ie := ie + 1
-  let (inn, is, iw, ie) := if cubic then (inn - 1, is + 1, iw - 1, ie + 1) else (inn, is, iw, ie)
-  let (iw, ie) :=
-    if ie - iw ≥ f.w - 1 then (0, f.w - 1)
-    else
-      let sh := if iw < 0 then f.w else if iw ≥ f.w then -f.w else 0
-      (iw + sh, ie + sh)
-  .set iw inn (ie - iw + 1) (is - inn + 1)
+  let p := windowOfIdx f.w f.h cubic (fl (west * rlonres)) (fl (east * rlonres)) (fl (F64.neg north * rlatres)) (fl (F64.neg south * rlatres))
+  .set p.1 p.2.1 p.2.2.1 p.2.2.2
+
+/-! ## the public operations: `operator()`, `CacheArea`, `CacheAll`, `CacheClear` on the binary64 instance -/
+
+inductive ApiOp where
+  | height (lat lon : F64)
+  | cacheArea (south west north east : F64)
+  | cacheAll
+  | cacheClear
+
+/-- `CacheArea(south, west, north, east)` on a state: the window computed in floating point, then the cache fill
+    (`GeographicErr` for invalid limits and on a thread-safe object: the state is unchanged) -/
+def apiCacheArea (f : File) (cubic : Bool) (s : St (List F64)) (south west north east : F64) : St (List F64) :=
+  match cacheWindow f cubic south west north east with
+  | .clear => (step (concrete f cubic) s .cacheClear).1
+  | .invalid => s
+  | .set xo yo xs ys => (step (concrete f cubic) s (.cacheSet xo yo xs ys)).1
+
+def apiStep (f : File) (cubic : Bool) (s : St (List F64)) : ApiOp → St (List F64) × Option F64
+  | .height lat lon => step (concrete f cubic) s (.height lat lon)
+  | .cacheArea so we no ea => (apiCacheArea f cubic s so we no ea, none)
+  | .cacheAll => (apiCacheArea f cubic s (F64.ofInt (-Gen.MathC.qd)) 0 (F64.ofInt Gen.MathC.qd) (F64.ofInt Gen.MathC.td), none)
+  | .cacheClear => ((step (concrete f cubic) s .cacheClear).1, none)
+
+/-- run a history of public operations, collecting the heights -/
+def apiRun (f : File) (cubic : Bool) : St (List F64) → List ApiOp → List F64
+  | _, [] => []
+  | s, op :: ops =>
+    match (apiStep f cubic s op).2 with
+    | some v => v :: apiRun f cubic (apiStep f cubic s op).1 ops
+    | none => apiRun f cubic (apiStep f cubic s op).1 ops
+
+/-- the state of a thread-safe object: the whole raster cached, then frozen -/
+def threadsafeSt (f : File) (cubic : Bool) : St (List F64) :=
+  { (apiStep f cubic (initSt f) .cacheAll).1 with threadsafe := true }
 
 /-! ## inspector functions of the cache and `ConvertHeight` -/
 
